@@ -315,6 +315,14 @@ class NestedChildren(WrappingQuery):
     def _rewrap(self, child):
         return self.__class__(self.parents, child, boost=self.boost)
 
+    def estimate_size(self, ixreader):
+        # The matches are the children of the matching parents: there can be
+        # many more of them than matching parents
+        return ixreader.doc_count()
+
+    def estimate_min_size(self, ixreader):
+        return 0
+
     def matcher(self, searcher, context=None):
         bits = searcher._filter_to_comb(self.parents)
         if not bits:
